@@ -83,15 +83,11 @@ func (provider *Provider) base() (baseTemplate *template.Template, err error) {
 
 // Layout return template for named layout (with loaded helpers and layout definitions)
 func (provider *Provider) Layout(name string) (tmpl *template.Template, err error) {
-	var (
-		ok bool
-	)
 	if name == "" {
 		name = goathtml.DefaultLayout
 	}
-	if tmpl, ok = provider.layouts[name]; ok {
-		return tmpl, nil
-	}
+	// the cache map is only touched under the layout mutex (a plain read here raced with
+	// the write in layout(): "concurrent map read and map write" kills the process)
 	return provider.layout(name)
 }
 
@@ -135,7 +131,6 @@ func (provider *Provider) layout(name string) (layoutTemplate *template.Template
 // View return template for view by name. It contains selected layout definitions and helpers
 func (provider *Provider) View(layoutName, viewName string) (tmpl *template.Template, err error) {
 	var (
-		ok  bool
 		key string
 	)
 	if layoutName == "" {
@@ -145,9 +140,7 @@ func (provider *Provider) View(layoutName, viewName string) (tmpl *template.Temp
 		return nil, goaterr.Errorf("goathtml.Provider: A view name is required")
 	}
 	key = layoutName + ":" + viewName
-	if tmpl, ok = provider.views[key]; ok {
-		return tmpl, nil
-	}
+	// the cache map is only touched under the view mutex (see Layout)
 	return provider.view(layoutName, viewName, key)
 }
 
